@@ -192,6 +192,19 @@ func C02(x *Idx) []V {
 			nextIsAPI := next >= 0 && x.apiStartBetween(proc, in.Exit, next)
 			policy := policyRestarts(sp, in.Code, relaunches)
 			stopBefore := x.FirstStopReq(proc, in.Launch, in.Exit)
+			if stopBefore < 0 {
+				// a stop request issued before this launch and still outstanding at it (it was
+				// blocked while the back-off expired): if it signalled this instance it is this
+				// instance's stop; if it did not, its effect on this instance is not determined
+				out0 := x.outstandingStopAt(proc, in.Launch)
+				if out0 >= 0 {
+					if len(in.Signals) > 0 {
+						stopBefore = out0
+					} else {
+						continue
+					}
+				}
+			}
 			internalShutdown := x.has(0, in.Exit, func(e world.Event) bool { return e.Kind == world.EvMark && e.Text == "shutdown-begin" }) >= 0
 			upto := x.End
 			if next >= 0 {
@@ -241,6 +254,19 @@ func C02(x *Idx) []V {
 		out = append(out, x.restartCountVerdicts("C02", proc, l)...)
 	}
 	return out
+}
+
+// outstandingStopAt: seq of a stop-ish request on proc that was called before seq and had not
+// returned at seq (-1 if none).
+func (x *Idx) outstandingStopAt(proc string, seq int) int {
+	for i := 0; i < seq && i < len(x.Ev); i++ {
+		if isStopReq(x.Ev[i], proc) {
+			if r := x.RetOf(i); r < 0 || r > seq {
+				return i
+			}
+		}
+	}
+	return -1
 }
 
 // restartCountVerdicts: for a process that has not been stopped yet, the reported restart count
@@ -310,6 +336,11 @@ func C03(x *Idx) []V {
 		}
 		for _, l := range x.Insts {
 			for _, in := range l {
+				// a start request issued after the shutdown request (served during or after it) is a
+				// new start request: what it launches is not this shutdown's business
+				if in.Launch > i && x.apiStartBetween(in.Proc, i, in.Launch) {
+					continue
+				}
 				if in.Launch < ret && (in.Exit < 0 || in.Exit > ret) {
 					out = append(out, V{"C03", "alive-after-shutdown", f("%s inst %d (launched seq %d) still alive when ShutDownProject returned at seq %d", in.Proc, in.Inst, in.Launch, ret)})
 				}
@@ -322,7 +353,7 @@ func C03(x *Idx) []V {
 			if sn.Seq <= ret {
 				continue
 			}
-			if x.has(ret, sn.Seq, func(e world.Event) bool {
+			if x.has(i, sn.Seq, func(e world.Event) bool {
 				return e.Kind == world.EvAPI && (e.Text == sc.OpStart || e.Text == sc.OpRestart || e.Text == sc.OpScale || e.Text == sc.OpUpdate)
 			}) >= 0 {
 				break
